@@ -741,3 +741,103 @@ Proof.
     rewrite (proj2 (Nat.leb_le _ _)) in B2 by lia. cbn [andb] in B2.
     destruct (btr b =? 0); cbn [negb andb orb] in *; [discriminate|]. rewrite B2. reflexivity.
 Qed.
+
+(* ------------------------------------------------------------------ mpt_array_string *)
+Lemma al3_one a b c : al3 1 a b c = true.
+Proof. unfold al3, aligned. rewrite !Nat.mod_1_r. reflexivity. Qed.
+
+Lemma array_string_sem hp a cnt acc : aok hp a ->
+  ares_ok hp a (array_string hp a) (s_string (hint_at hp a cnt acc) (aval hp a)) true.
+Proof.
+  intros OK. unfold array_string. destruct a as [i|].
+  2:{ cbn [ares_ok aval s_string]. split; [apply P_same|auto]. }
+  destruct (OK i eq_refl) as [b [E [W R]]]. rewrite E.
+  assert (AV : aval hp (Some i) = Some (btr b, bview b)) by (unfold aval; rewrite E; reflexivity).
+  rewrite AV. unfold s_string.
+  destruct (Nat.eqb_spec (btr b) 1) as [T1|T1]; cbn [negb].
+  2:{ cbn [ares_ok]. split; [apply P_same|]. rewrite AV. auto. }
+  fold (bview b). destruct (has_zero (bview b)) eqn:Hz.
+  { cbn [ares_ok]. split; [apply P_same|]. rewrite AV. reflexivity. }
+  pose proof (array_slice_sem hp (Some i) (bused b) 1 cnt acc OK) as S.
+  unfold slice_refuse, sliced, tl_of in S. rewrite AV in S. cbn [fst snd] in S.
+  rewrite T1, al3_one in S. cbn [negb andb orb Nat.eqb] in S.
+  destruct (array_slice hp (Some i) (bused b) 1) as [hp1 a1 n|hp1 a1|]; [| |contradiction].
+  - destruct S as [Bk [j [b' [-> [E' [T [R' [I' [W' [S' [Tr V']]]]]]]]]]]. rewrite Bk.
+    cbn [ares_ok]. split; [exact T|]. unfold Dn. rewrite (bview_length _ W).
+    unfold aval. rewrite E'. cbn [option_map]. unfold bval. rewrite Tr, V'.
+    unfold ext. rewrite (bview_length _ W). replace (bused b + 1 - bused b) with 1 by lia. reflexivity.
+  - destruct S as [Bk [-> ->]]. rewrite Bk. cbn [ares_ok]. split; [apply P_same|]. rewrite AV. auto.
+Qed.
+
+(* ------------------------------------------------------------------ mpt_array_reserve *)
+Lemma array_reserve_sem hp a len0 tr cnt acc : aok hp a ->
+  ares_ok hp a (array_reserve hp a len0 tr) (s_reserve (hint_at hp a cnt acc) (aval hp a) tr) false.
+Proof.
+  intros OK. unfold array_reserve. set (len := if tr =? 0 then len0 else round_up tr len0).
+  destruct a as [i|].
+  2:{ unfold halloc. cbn [ares_ok aval s_reserve]. split.
+      - apply (P_fresh0 hp None); [reflexivity|]. apply buf_wf_set_tr_empty; [apply new_buf_wf|reflexivity].
+      - unfold D, aval. rewrite hget_app_r by lia. rewrite Nat.sub_diag. reflexivity. }
+  destruct (OK i eq_refl) as [b [E [W R]]]. rewrite E.
+  assert (AV : aval hp (Some i) = Some (btr b, bview b)) by (unfold aval; rewrite E; reflexivity).
+  rewrite AV. unfold s_reserve, guarded, hint_at. rewrite E. cbn [hsh him hnc].
+  pose proof W as [L [U A]].
+  destruct (shared b || bimm b) eqn:Sh; cbn [andb].
+  - (* a distinct buffer is required *)
+    set (keep := (btr b =? tr) && negb (bnc b)).
+    assert (Hu : (if btr b =? 0 then bused b else bused b - bused b mod btr b) = bused b).
+    { destruct (Nat.eqb_spec (btr b) 0) as [Z|Z]; [reflexivity|]. rewrite (A Z). lia. }
+    rewrite Hu.
+    destruct keep eqn:Kp.
+    + subst keep. apply andb_prop in Kp. destruct Kp as [Kt Kn]. apply Nat.eqb_eq in Kt. subst tr.
+      destruct (Nat.eqb_spec (bused b) 0) as [Z|Z].
+      * cbn [bind lift ares_ok]. split.
+        -- apply (P_fresh0 hp (Some i)); [reflexivity|].
+           apply buf_wf_set_tr_empty; [apply new_buf_wf|reflexivity].
+        -- unfold D, aval. rewrite hget_app_r by (rewrite length_hunref; lia).
+           rewrite length_hunref, Nat.sub_diag. cbn [hget nth_error option_map]. unfold bval. bsimp.
+           unfold bview at 1. bsimp. unfold bview. rewrite Z. reflexivity.
+      * pose proof (fresh_copy b (if len <? bused b then bused b else len) false W
+                      ltac:(destruct (Nat.ltb_spec len (bused b)); lia)) as F.
+        destruct (buffer_set _ _ 0 _) as [nx'| |]; try contradiction.
+        destruct F as [F1 [F2 [F3 [F4 [F5 [F6 [F7 F8]]]]]]]. cbn [bind lift ares_ok]. split.
+        -- apply (P_fresh0 hp (Some i)); assumption.
+        -- unfold D, aval. rewrite hget_app_r by (rewrite length_hunref; lia).
+           rewrite length_hunref, Nat.sub_diag. cbn [hget nth_error option_map]. unfold bval.
+           rewrite F4, F5. reflexivity.
+    + cbn [Nat.eqb bind lift ares_ok]. split.
+      * apply (P_fresh0 hp (Some i)); [reflexivity|].
+        apply buf_wf_set_tr_empty; [apply new_buf_wf|reflexivity].
+      * unfold D, aval. rewrite hget_app_r by (rewrite length_hunref; lia).
+        rewrite length_hunref, Nat.sub_diag. reflexivity.
+  - (* private, mutable: reuse *)
+    apply orb_false_elim in Sh. destruct Sh as [S1 S2]. unfold shared in S1. apply Nat.leb_gt in S1.
+    assert (R1 : bref b = 1) by lia.
+    set (b0 := if btr b =? tr then b else set_used b 0).
+    assert (W0 : buf_wf b0).
+    { subst b0. destruct (btr b =? tr); [exact W|]. unfold buf_wf; bsimp. split; [exact L|]. split; [lia|].
+      intros Z. apply Nat.mod_0_l. assumption. }
+    assert (R0 : bref b0 = 1) by (subst b0; destruct (btr b =? tr); assumption).
+    assert (I0 : bimm b0 = false) by (subst b0; destruct (btr b =? tr); assumption).
+    assert (E0 : hget (hset hp i b0) i = Some b0).
+    { rewrite hget_hset, Nat.eqb_refl, (proj2 (Nat.ltb_lt _ _) (hget_lt _ _ _ E)). reflexivity. }
+    assert (T0 : ptrans hp (Some i) (hset hp i b0) (Some i)) by (eapply P_inplace; eauto).
+    pose proof (detach_sem (hset hp i b0) i b0 len E0 W0 ltac:(lia) (or_intror (conj R0 I0))) as Dt.
+    destruct (detach (hset hp i b0) i len) as [[hp1 j]| |]; [| |contradiction].
+    + destruct Dt as [b1 [E1 [T1 [PC _]]]]. rewrite E1. cbn [ares_ok].
+      destruct PC as [P1 [P2 [P3 [P4 [P5 [P6 [P7 P8]]]]]]].
+      assert (W2 : buf_wf (set_tr b1 tr)).
+      { destruct P8 as [L1 [U1 A1]]. unfold buf_wf; bsimp. split; [exact L1|]. split; [exact U1|].
+        intros Z. rewrite P6. subst b0. destruct (Nat.eqb_spec (btr b) tr) as [Q|Q].
+        - rewrite <- Q. apply A. rewrite Q. exact Z.
+        - bsimp. apply Nat.mod_0_l. exact Z. }
+      destruct (inplace_done hp (Some i) hp1 j b1 (set_tr b1 tr) (ptrans_trans _ _ _ _ _ _ T0 T1) E1 P1
+                  ltac:(bsimp; lia) W2) as [T2 AV2].
+      split; [exact T2|]. rewrite AV2. unfold bval. bsimp.
+      change (bview (set_tr b1 tr)) with (bview b1). rewrite P5. subst b0.
+      destruct (Nat.eqb_spec (btr b) tr) as [Q|Q]; cbn [andb negb].
+      * rewrite Q. reflexivity.
+      * reflexivity.
+    + exfalso. apply andb_prop in Dt. destruct Dt as [Dt _]. apply andb_prop in Dt. destruct Dt as [Dt _].
+      unfold shared in Dt. apply Nat.leb_le in Dt. lia.
+Qed.
